@@ -26,7 +26,11 @@ type Transport = UnboundedChannel<ClientMessage<()>, Response<()>>;
 type Chan = BaseChannel<(), (), Transport>;
 type ClientEnd = UnboundedChannel<Response<()>, ClientMessage<()>>;
 
-const LEN: usize = 9;
+/// quick tier: the first bound; thorough tier (VERIF_TIER=thorough, set by vx/native_run.py): the second
+fn bound(quick: usize, thorough: usize) -> usize {
+    if std::env::var("VERIF_TIER").as_deref() == Ok("thorough") { thorough } else { quick }
+}
+
 
 #[derive(Clone, Copy, Debug, PartialEq)]
 enum Ev {
@@ -135,7 +139,8 @@ fn valid(script: &[Ev]) -> bool {
 fn channels_per_key_scripts() {
     let mut scripts = 0u64;
     let mut failures: Vec<String> = vec![];
-    for len in 1..=LEN {
+    let max_len = bound(9, 10);
+    for len in 1..=max_len {
         let mut idx = vec![0usize; len];
         'outer: loop {
             let script: Vec<Ev> = idx.iter().map(|&i| ALPHABET[i]).collect();
@@ -166,7 +171,7 @@ fn channels_per_key_scripts() {
             break; // shortest failing scripts first
         }
     }
-    println!("VERIF-BOUNDED channels_per_key evaluations={scripts} bound=events<={LEN},keys=2,n in 1..=2");
+    println!("VERIF-BOUNDED channels_per_key evaluations={scripts} bound=events<={max_len},keys=2,n in 1..=2");
     for f in &failures {
         println!("VERIF-FAIL C13 {f}");
     }
